@@ -119,7 +119,7 @@ def compile_all(name, lang, out, incs, res, subject_objs, have_subject=True, wra
 def run_generated(case):
     lib = case["lib"]
     res = {"violations": [], "stats": {}, "name": lib["name"]}
-    rr = engine.generate(lib)
+    rr = engine.generate(lib, before=case.get("before"))
     cwd = rr.get("cwd")
     try:
         if rr.get("exc") or rr.get("exit") != 0:
@@ -282,7 +282,7 @@ def main(rec):
                 lib = libs.build("s%d" % k, lang, [(s_, T)], s_["wraps"], options={"F_CFI": cfi})
                 cases.append({"lib": lib, "row": {"single_shape": s_["id"], "T": T, "F_CFI": cfi, "wraps": list(s_["wraps"])}})
             # ... and with the C wrapper alone (what Fortran would have pulled in is not there)
-            if "c" in s_["wraps"] and len(s_["wraps"]) > 1 and (thorough or (k + len(cases)) % 2 == common.seed() % 2):
+            if "c" in s_["wraps"] and len(s_["wraps"]) > 1:
                 k += 1
                 lib = libs.build("s%d" % k, lang, [(s_, T)], ("c",))
                 cases.append({"lib": lib, "row": {"single_shape": s_["id"], "T": T, "F_CFI": False, "wraps": ["c"]}})
@@ -293,6 +293,26 @@ def main(rec):
         own = [x for i, x in enumerate(own) if i % 2 == common.seed() % 2]
     for lib, row in own:
         cases.append({"lib": lib, "row": row})
+    # a library wrapped after other libraries in the same Python process (shroud.create_wrapper is documented for use from
+    # build scripts): its sources compile exactly as when it is wrapped alone
+    from ..libgen import gen as rgen
+    rows_ = {x["id"]: x for x in rgen.R.ROWS}
+    def _prev(name, lang, ids):
+        d_ = rgen.library(name, lang, [(rows_[i], (rows_[i]["types"] or [None])[0]) for i in ids if i in rows_ and lang in rows_[i]["langs"]], ("c", "fortran", "python"))
+        return rgen.spec_for(d_, name)
+    prevs = {"cstruct": [_prev("prevc", "c", ["struct_fn", "enum_fn", "typedef_fn", "scalar2"])],
+             "cxxclass": [_prev("prevx", "c++", ["class_basic", "enum_fn", "struct_fn", "class_enum", "namespace_fn", "vec_in"])],
+             "both": [_prev("prevc", "c", ["struct_fn", "enum_fn", "typedef_fn"]), _prev("prevx", "c++", ["class_basic", "class_enum", "str_cref"])]}
+    hk = 0
+    for pname, before in prevs.items():
+        for lang in ("c++", "c"):
+            inst = libs.instances(lang, ("c", "fortran", "python"))
+            pick = [x for x in inst if x[0]["id"] in ("scalar2", "str_in" if lang == "c++" else "cstr_in", "arr_in", "class_basic", "ptr_out", "bool1")][:5]
+            if not pick:
+                continue
+            hk += 1
+            lib = libs.build("h%d" % hk, lang, pick, ("c", "fortran", "python"))
+            cases.append({"lib": lib, "before": before, "row": {"after": pname, "wraps": ["c", "fortran", "python"], "F_CFI": False}})
     res = pool.run_cases("vf.checks.c05", cases, func="run_generated", timeout=1800)
     for c, rr in zip(cases, res):
         if "stats" not in rr:
